@@ -76,6 +76,9 @@ func (e *Engine) checkImmutables(fnIndex map[string]*ssa.Function) {
 				for _, l := range layout(ft) {
 					e.immutableHeap[hn+l.Suffix] = true
 					stableHeapNames[hn+l.Suffix] = true
+					if g.Lock == "stable" {
+						stableOwner[hn+l.Suffix] = ts.Pkg
+					}
 				}
 				var bad []string
 				for key, fn := range fnIndex {
@@ -190,13 +193,16 @@ func (e *Engine) checkPrivate(ts *TypeSpec, fnIndex map[string]*ssa.Function) {
 				for _, l := range layout(ft) {
 					stableHeapNames[hn+l.Suffix] = true
 					e.immutableHeap[hn+l.Suffix] = true
+					stableOwner[hn+l.Suffix] = ts.Pkg
 				}
 				if mt, isMap := ft.Underlying().(*types.Map); isMap {
 					if _, ok := mapSorts(mt); ok {
 						mn := mapHeapName(mt)
 						stableHeapNames[mn+"#dom"] = true
+						stableOwner[mn+"#dom"] = ts.Pkg
 						for _, l := range layout(mt.Elem()) {
 							stableHeapNames[mn+"#val"+l.Suffix] = true
+							stableOwner[mn+"#val"+l.Suffix] = ts.Pkg
 						}
 						var bad []string
 						for key, fn := range fnIndex {
@@ -237,14 +243,17 @@ func (e *Engine) checkPrivate(ts *TypeSpec, fnIndex map[string]*ssa.Function) {
 			for _, l := range layout(ft) {
 				stableHeapNames[hn+l.Suffix] = true
 				e.immutableHeap[hn+l.Suffix] = true
+				stableOwner[hn+l.Suffix] = ts.Pkg
 			}
 			var bad []string
 			if mt, isMap := ft.Underlying().(*types.Map); isMap {
 				if _, ok := mapSorts(mt); ok {
 					mn := mapHeapName(mt)
 					stableHeapNames[mn+"#dom"] = true
+					stableOwner[mn+"#dom"] = ts.Pkg
 					for _, l := range layout(mt.Elem()) {
 						stableHeapNames[mn+"#val"+l.Suffix] = true
+						stableOwner[mn+"#val"+l.Suffix] = ts.Pkg
 					}
 					// no other package may update a map of this type
 					for key, fn := range fnIndex {
